@@ -265,3 +265,198 @@ Qed.
 Lemma matches_avoid r stops s :
   forallb (fun k => negb (mem k (re_chars r))) stops = true -> matches r s -> avoid stops s.
 Proof. intros Hs M. apply (class_avoid (fun c => mem c (re_chars r)) stops s Hs). apply matches_chars. exact M. Qed.
+
+(* ================================================================ 3. the text, in parts *)
+(* the host text that is written: the canonical text of the bytes for an IPv6 host, the host text otherwise *)
+Definition host_written (u : uri) (h : text) : text :=
+  match ip6 u with Some b => groups_text b | None => h end.
+Definition host_wr (u : uri) (h : text) : text :=
+  if is_lit u then [91] ++ host_written u h ++ [93] else host_written u h.
+Definition auth_text (u : uri) : text :=
+  match hostText u with
+  | Some h => [47; 47] ++ opt_post (userInfo u) [64] ++ host_wr u h ++ opt_pre [58] (portText u)
+  | None => []
+  end.
+
+Lemma host_set_ok u : host_ok u -> is_host_set u = is_some (hostText u).
+Proof.
+  unfold host_ok, is_host_set. destruct (hostText u) as [h|]; [reflexivity|].
+  intros (-> & -> & ->). reflexivity.
+Qed.
+
+Lemma ip4_text_render h : matchb Rfc3986.IPv4address h = true -> concat (ip4_pieces (ip4_value h) 0) = h.
+Proof.
+  intros H. apply matchb_spec in H. apply parse_ip4_grammar in H. destruct H as [o Ho].
+  destruct (parse_ip4_value h o Ho) as [<- _]. exact (parse_ip4_render h o Ho).
+Qed.
+
+Lemma host_rendered_ok u h : host_ok u -> hostText u = Some h -> host_rendered u = host_wr u h.
+Proof.
+  unfold host_ok, host_rendered, host_wr, host_written, is_lit. intros H E. rewrite E in *.
+  destruct H as [_ H].
+  destruct (ip4 u) as [o|], (ip6 u) as [b|], (ipFuture u) as [f|]; try contradiction; cbn [is_some orb].
+  - destruct H as [Hm ->]. exact (ip4_text_render h Hm).
+  - destruct H as [Hl Hb]. rewrite !concat_app. rewrite (ip6_render b Hl Hb). reflexivity.
+  - destruct H as [-> _]. reflexivity.
+  - cbn [concat]. apply app_nil_r.
+Qed.
+
+Theorem to_text_parts u : host_ok u ->
+  to_text u = opt_post (scheme u) [58] ++ auth_text u ++ path_text u ++ qf_part (query u) (fragment u).
+Proof.
+  intros Hh. pose proof (host_set_ok u Hh) as Hs.
+  assert (forall h, hostText u = Some h -> host_rendered u = host_wr u h) as Hr
+    by (intros h; apply host_rendered_ok; exact Hh).
+  unfold to_text, pieces. rewrite Hs. unfold auth_text, path_text, qf_part. unfold host_rendered in Hr.
+  rewrite !concat_app, !concat_opt_pieces, concat_path_pieces.
+  destruct (hostText u) as [h|]; cbn [is_some].
+  - rewrite !concat_app, !concat_opt_pieces. specialize (Hr h eq_refl). cbv beta iota in Hr |- *.
+    match goal with |- context [?X ++ match portText u with Some t => _ | None => [] end] =>
+      replace X with (host_wr u h) by (symmetry; exact Hr) end.
+    rewrite andb_true_r. cbn [andb].
+    destruct (scheme u), (userInfo u), (portText u), (query u), (fragment u),
+      (absolutePath u || negb match pathSegs u with [] => true | _ :: _ => false end);
+      cbn [concat app opt_post opt_pre]; rewrite <- ?app_assoc; cbn [app]; rewrite ?app_nil_r; reflexivity.
+  - rewrite andb_false_r. cbn [andb].
+    destruct (scheme u), (query u), (fragment u), (absolutePath u || false);
+      cbn [concat app opt_post opt_pre]; rewrite <- ?app_assoc; cbn [app]; rewrite ?app_nil_r; reflexivity.
+Qed.
+
+(* the path text as a non-empty list of segments joined with "/" *)
+Definition text_segs (u : uri) : list text :=
+  (if absolutePath u || (is_some (hostText u) && negb (match pathSegs u with [] => true | _ => false end))
+   then [[]] else [])
+  ++ match pathSegs u with [] => [[]] | _ => pathSegs u end.
+
+Lemma path_text_join u : path_text u = join_slash (text_segs u).
+Proof.
+  unfold path_text, text_segs.
+  destruct (absolutePath u || _); destruct (pathSegs u) as [|s r]; reflexivity.
+Qed.
+
+Lemma text_segs_ok u : Forall (text_ok is_pchar) (pathSegs u) ->
+  text_segs u <> [] /\ Forall (text_ok is_pchar) (text_segs u).
+Proof.
+  intros H. unfold text_segs. assert (text_ok is_pchar []) as H0 by (split; reflexivity).
+  destruct (absolutePath u || _); destruct (pathSegs u) as [|s r]; cbn [app];
+    (split; [discriminate|]); try exact H; repeat (apply Forall_cons; [exact H0|]); try exact H; constructor.
+Qed.
+
+(* with an authority the path text is "/" segment "/" segment ... *)
+Lemma path_text_hosted u h : hostText u = Some h -> absolutePath u = false -> path_text u = slashed (pathSegs u).
+Proof.
+  intros E Ha. unfold path_text. rewrite E, Ha. cbn [is_some orb andb].
+  destruct (pathSegs u) as [|s r]; [reflexivity|]. cbn [negb]. rewrite slashed_join by discriminate. reflexivity.
+Qed.
+
+(* ================================================================ 4. A1: the text is a URI reference *)
+Lemma opt_post_matches r o c : opt_ok (matches r) o -> matches (Rfc3986.opt (Seq r (Rfc3986.ch c))) (opt_post o [c]).
+Proof.
+  destruct o as [t|]; cbn [opt_ok opt_post]; intros H; [|apply m_opt_none].
+  apply m_opt_some. apply MSeq; [exact H|apply m_ch].
+Qed.
+Lemma opt_pre_matches r o c : opt_ok (matches r) o -> matches (Rfc3986.opt (Seq (Rfc3986.ch c) r)) (opt_pre [c] o).
+Proof.
+  destruct o as [t|]; cbn [opt_ok opt_pre]; intros H; [|apply m_opt_none].
+  apply m_opt_some. apply MSeq; [apply m_ch|exact H].
+Qed.
+
+Lemma host_matches u h : host_ok u -> hostText u = Some h -> matches Rfc3986.host (host_wr u h).
+Proof.
+  unfold host_ok, host_wr, host_written, is_lit. intros H E. rewrite E in H. destruct H as [_ H].
+  unfold Rfc3986.host. cbn [Rfc3986.alts].
+  destruct (ip4 u) as [o|], (ip6 u) as [b|], (ipFuture u) as [f|]; try contradiction; cbn [is_some orb].
+  - destruct H as [Hm _]. apply MAltR. apply MAltL. apply matchb_spec. exact Hm.
+  - destruct H as [Hl Hb]. apply MAltL. unfold Rfc3986.IP_literal. cbn [Rfc3986.seqs].
+    apply MSeq; [apply m_ch|]. apply MSeq; [|apply m_ch]. apply MAltL. exact (groups_text_ip6 b Hl Hb).
+  - destruct H as [_ Hm]. apply MAltL. unfold Rfc3986.IP_literal. cbn [Rfc3986.seqs].
+    apply MSeq; [apply m_ch|]. apply MSeq; [|apply m_ch]. apply MAltR. apply matchb_spec. exact Hm.
+  - apply MAltR. apply MAltR. exact (regname_matches h H).
+Qed.
+
+Lemma authority_matches u h : produced_wf u -> hostText u = Some h ->
+  matches Rfc3986.authority (opt_post (userInfo u) [64] ++ host_wr u h ++ opt_pre [58] (portText u)).
+Proof.
+  intros (_ & Hui & Hh & Hpo & _) E. unfold Rfc3986.authority. cbn [Rfc3986.seqs].
+  apply MSeq; [|apply MSeq].
+  - apply opt_post_matches. revert Hui. apply opt_ok_impl. exact userinfo_matches.
+  - exact (host_matches u h Hh E).
+  - apply opt_pre_matches. revert Hpo. apply opt_ok_impl. exact port_matches.
+Qed.
+
+Lemma pchar_no_slash s : text_ok is_pchar s -> avoid [47] s.
+Proof. intros [Hc _]. revert Hc. apply class_avoid. reflexivity. Qed.
+
+Lemma slashed_stops47 ps : stops_at [47] (slashed ps).
+Proof. destruct ps; [exact I|reflexivity]. Qed.
+
+(* the first segment of a joined path *)
+Lemma first_segment s r : text_ok is_pchar s -> span_until [47] (join_slash (s :: r)) = (s, slashed r).
+Proof.
+  intros Hs. rewrite join_slash_cons. apply span_app; [exact (pchar_no_slash s Hs)|apply slashed_stops47].
+Qed.
+
+(* the path of a reference without authority: path-absolute / path-rootless or path-noscheme / path-empty *)
+Lemma hostless_path_matches (L : list Chars.text) (sch : bool) :
+  L <> [] -> Forall (text_ok is_pchar) L -> no_dslash_start (join_slash L) ->
+  (sch = false -> ~ In 58 (fst (span_until [47] (join_slash L)))) ->
+  matches (Alt Rfc3986.path_absolute
+            (Alt (if sch then Rfc3986.path_rootless else Rfc3986.path_noscheme) Rfc3986.path_empty))
+          (join_slash L).
+Proof.
+  intros Hn Hf Hd Hc. destruct L as [|s r]; [contradiction|].
+  inversion Hf as [|? ? Hs Hr]; subst.
+  rewrite (first_segment s r Hs) in Hc. cbn [fst] in Hc.
+  rewrite join_slash_cons in *. destruct s as [|c s].
+  - cbn [app] in *. destruct r as [|s2 r2].
+    + apply MAltR. apply MAltR. constructor.
+    + inversion Hr as [|? ? Hs2 Hr2]; subst.
+      unfold slashed in *. cbn [map concat] in *. fold (slashed r2) in *.
+      apply MAltL. unfold Rfc3986.path_absolute.
+      change ((47 :: s2) ++ slashed r2) with ([47] ++ s2 ++ slashed r2). apply MSeq; [apply m_ch|].
+      destruct s2 as [|c2 s2].
+      * destruct r2 as [|s3 r3]; [apply m_opt_none|]. exfalso. unfold no_dslash_start in Hd. discriminate Hd.
+      * apply m_opt_some. apply MSeq; [apply segment_nz_matches; [exact Hs2|discriminate]|exact (abempty_matches r2 Hr2)].
+  - apply MAltR. apply MAltL. destruct sch.
+    + unfold Rfc3986.path_rootless. apply MSeq; [apply segment_nz_matches; [exact Hs|discriminate]|exact (abempty_matches r Hr)].
+    + unfold Rfc3986.path_noscheme.
+      apply MSeq; [apply segment_nz_nc_matches; [exact Hs|exact (Hc eq_refl)|discriminate]|exact (abempty_matches r Hr)].
+Qed.
+
+Lemma hier_matches u : produced_wf u ->
+  matches (Alt (Rfc3986.seqs [Rfc3986.ch 47; Rfc3986.ch 47; Rfc3986.authority; Rfc3986.path_abempty])
+            (Alt Rfc3986.path_absolute
+              (Alt (if is_some (scheme u) then Rfc3986.path_rootless else Rfc3986.path_noscheme) Rfc3986.path_empty)))
+          (auth_text u ++ path_text u).
+Proof.
+  intros Hwf. pose proof Hwf as (_ & _ & Hh & _ & Hps & _ & _ & Hpu & _).
+  unfold auth_text. destruct (hostText u) as [h|] eqn:E.
+  - apply MAltL. cbn [Rfc3986.seqs].
+    assert (absolutePath u = false) as Ha by (unfold host_ok in Hh; rewrite E in Hh; exact (proj1 Hh)).
+    rewrite (path_text_hosted u h E Ha).
+    change ([47; 47] ++ ?X) with ([47] ++ [47] ++ X). rewrite <- !app_assoc.
+    apply MSeq; [apply m_ch|]. apply MSeq; [apply m_ch|].
+    rewrite !app_assoc. apply MSeq; [|exact (abempty_matches _ Hps)].
+    rewrite <- app_assoc. exact (authority_matches u h Hwf E).
+  - apply MAltR. cbn [app]. unfold path_unambiguous in Hpu. rewrite E in Hpu. destruct Hpu as [Hd Hc].
+    rewrite path_text_join in *. destruct (text_segs_ok u Hps) as [Hn Hf].
+    apply hostless_path_matches; [exact Hn|exact Hf|exact Hd|].
+    intros Hs. apply Hc. destruct (scheme u); [discriminate Hs|reflexivity].
+Qed.
+
+Theorem produced_text_valid u : produced_wf u -> matches Rfc3986.URI_reference (to_text u).
+Proof.
+  intros Hwf. pose proof Hwf as (Hsc & _ & Hh & _ & _ & Hqu & Hfr & _).
+  rewrite (to_text_parts u Hh). pose proof (hier_matches u Hwf) as Hp.
+  assert (matches (Rfc3986.opt (Seq (Rfc3986.ch 63) Rfc3986.query)) (opt_pre [63] (query u))) as Mq.
+  { apply opt_pre_matches. revert Hqu. apply opt_ok_impl. exact qf_matches. }
+  assert (matches (Rfc3986.opt (Seq (Rfc3986.ch 35) Rfc3986.fragment)) (opt_pre [35] (fragment u))) as Mf.
+  { apply opt_pre_matches. revert Hfr. apply opt_ok_impl. exact qf_matches. }
+  unfold qf_part. rewrite (app_assoc (auth_text u)).
+  unfold Rfc3986.URI_reference. destruct (scheme u) as [sc|]; cbn [opt_post opt_ok is_some] in *.
+  - apply MAltL. unfold Rfc3986.URI. cbn [Rfc3986.seqs]. rewrite <- app_assoc.
+    apply MSeq; [exact (scheme_matches sc Hsc)|]. apply MSeq; [apply m_ch|].
+    apply MSeq; [exact Hp|]. apply MSeq; assumption.
+  - apply MAltR. unfold Rfc3986.relative_ref. cbn [Rfc3986.seqs app].
+    apply MSeq; [exact Hp|]. apply MSeq; assumption.
+Qed.
